@@ -63,3 +63,46 @@ pub uninterp spec fn index_bytes(m: Map<String, BlockPos>) -> Seq<u8>;
 pub fn rkyv_to_bytes_index(m: &HashMap<String, BlockPos>) -> (r: Result<Vec<u8>, ()>) ensures r matches Ok(b) ==> b@ == index_bytes(m@) { unimplemented!() }
 #[verifier::external_body]
 pub fn tmp_name(path: &String) -> (r: String) ensures r@ == path@ + seq!['.', 't', 'm', 'p'] { unimplemented!() }
+
+// ---- new WAL files (paths.rs create_new_file)
+pub struct PathBuf { pub p: Ghost<Seq<char>> }
+pub struct DirH { pub x: u8 }
+pub uninterp spec fn join_spec(root: Seq<char>, name: Seq<char>) -> Seq<char>;
+#[verifier::external_body]
+pub fn path_join(root: &PathBuf, name: &String) -> (r: PathBuf) ensures r.p@ == join_spec(root.p@, name@) { unimplemented!() }
+#[verifier::external_body]
+pub fn path_to_string(p: &PathBuf) -> (r: String) ensures r@ == p.p@ { unimplemented!() }
+#[verifier::external_body]
+pub fn now_millis_str() -> (r: String) { unimplemented!() }
+// fs::create_dir_all: no effect on the entries of the instance directory
+#[verifier::external_body]
+pub fn fs_create_dir_all(fs: &mut Fs, root: &PathBuf) -> (r: IoResult<()>) ensures *final(fs) == *old(fs) { unimplemented!() }
+// File::create: create or truncate, volatile
+#[verifier::external_body]
+pub fn fs_create(fs: &mut Fs, path: &PathBuf) -> (r: IoResult<FileH>)
+    ensures
+        final(fs).dur_dir == old(fs).dur_dir, final(fs).dur_data == old(fs).dur_data,
+        r matches Ok(h) ==> final(fs).vol_dir@ == old(fs).vol_dir@.insert(path.p@, h.inode) && final(fs).vol_data@ == old(fs).vol_data@.insert(h.inode, Seq::<u8>::empty()),
+        r is Err ==> *final(fs) == *old(fs),
+{ unimplemented!() }
+impl FileH {
+    // File::set_len on an empty file: n zero bytes (sparse), volatile
+    #[verifier::external_body]
+    pub fn set_len(&self, fs: &mut Fs, n: u64) -> (r: IoResult<()>)
+        ensures
+            final(fs).vol_dir == old(fs).vol_dir, final(fs).dur_dir == old(fs).dur_dir, final(fs).dur_data == old(fs).dur_data,
+            r is Ok ==> final(fs).vol_data@ == old(fs).vol_data@.insert(self.inode, Seq::new(n as nat, |i: int| 0u8)),
+            r is Err ==> final(fs).vol_data == old(fs).vol_data,
+    { unimplemented!() }
+}
+#[verifier::external_body]
+pub fn fs_open_dir(fs: &Fs, root: &PathBuf) -> (r: IoResult<DirH>) { unimplemented!() }
+impl DirH {
+    // sync_all on the directory: every entry (creation, rename) becomes durable
+    #[verifier::external_body]
+    pub fn sync_all(&self, fs: &mut Fs) -> (r: IoResult<()>)
+        ensures
+            final(fs).vol_dir == old(fs).vol_dir, final(fs).vol_data == old(fs).vol_data, final(fs).dur_data == old(fs).dur_data,
+            r is Ok ==> final(fs).dur_dir == old(fs).vol_dir, r is Err ==> final(fs).dur_dir == old(fs).dur_dir,
+    { unimplemented!() }
+}
